@@ -234,73 +234,52 @@ def rule_modify(rep, rule="M-modify"):
         rep.functions.add(idx.get(q).qual)
 
 
-def rule_point_object_layout(rep, rule="P-layout"):
-    """The text PointObject.save builds (its template evaluated on exemplar objects, nothing written) has the
-    layout the short reader consumes -- also for zero points."""
+def rule_point_object_layout(rep, tier, rule="P-layout"):
+    """PointObject.save followed by open1D/2DPointObject, interpreted on exemplar objects with a virtual file
+    (nothing is written to disk): class, span and every point come back, also for zero points."""
     idx = common.ctx()
-    sv = idx.get("PointObject.save")
-    rd = idx.get("data_points:_parseShortHeader")
-    rep.functions.add(sv.qual)
-    rep.functions.add(rd.qual)
-    withs = [s for s in sv.node.body if isinstance(s, ast.With)]
-    if len(withs) != 1:
-        rep.vanished(rule, sv.short, "with io.open(fn, 'w')")
-        return
-    wr = [n for n in ast.walk(withs[0]) if isinstance(n, ast.Call) and norm(n.func).endswith(".write") and n.args and isinstance(n.args[0], ast.Name)]
-    if len(wr) != 1:
-        rep.undecided(rule, sv.short, "fd.write(<name>)", "written value is not a plain variable")
-        return
-    outvar = wr[0].args[0].id
-    splits = [n for n in ast.walk(rd.node) if isinstance(n, ast.Call) and norm(n.func) == "data.split" and len(n.args) == 2]
-    k = ast.literal_eval(splits[0].args[1]) if splits else None
-    idxs = {}
-    for n in ast.walk(rd.node):
-        if isinstance(n, ast.Assign) and norm(n.targets[0]) in ("minT", "maxT") and "chunkedData[" in norm(n.value):
-            m = re.search(r"chunkedData\[(-?\d+)\]", norm(n.value))
-            idxs[norm(n.targets[0])] = int(m.group(1))
-    if k is None or set(idxs) != {"minT", "maxT"}:
-        rep.undecided(rule, rd.short, "split / indices", "short header reader has an unexpected shape")
-        return
     st = State([("0", Lin.num(0))], [0])
-    cls2 = idx.cls("PointObject2D")
-    cases = [("zero points", []), ("two points", [(Fraction(1, 4), Fraction(120)), (Fraction(3, 2), Fraction(5, 2))])]
-    for what, pts in cases:
+    F = Fraction
+    cases = [
+        ("PointObject2D", "PitchTier", "open2DPointObject", []),
+        ("PointObject2D", "PitchTier", "open2DPointObject", [(F(1, 4), F(120)), (F(3, 2), F(5, 2))]),
+        ("PointObject2D", "DurationTier", "open2DPointObject", [(F(1, 8), F(3, 4))]),
+        ("PointObject1D", "PointProcess", "open1DPointObject", [(F(1, 4),), (F(1, 2),), (F(7, 8),)]),
+    ]
+    if tier == "thorough":
+        cases += [("PointObject2D", "PitchTier", "open2DPointObject", [(F(k, 16), F(100 + k)) for k in range(1, 9)]),
+                  ("PointObject1D", "PointProcess", "open1DPointObject", [(F(1, 1024),), (F(12345, 8),)])]
+    sv = idx.get("PointObject.save")
+    rep.functions.add(sv.qual)
+    for cname, oclass, opener, pts in cases:
+        rd = idx.get("data_points:" + opener)
+        rep.functions.add(rd.qual)
+        what = "%s %s with %d point(s)" % (cname, oclass, len(pts))
         I = Interp(idx, st, overrides=default_overrides())
         try:
-            obj = I.instantiate(cls2, [Lst([Tup([Lin.num(a), Lin.num(b)]) for a, b in pts]), "PitchTier", Lin.num(0), Lin.num(Fraction(7, 4))], {})
-            env = {"__fn__": sv, sv.self_name: obj, sv.params[0]: "out.PitchTier"}
-            for s_ in sv.node.body:
-                if isinstance(s_, ast.With):
-                    break
-                I.exec_stmt(s_, env)
-            text = env.get(outvar)
+            obj = I.instantiate(idx.cls(cname), [Lst([Tup([Lin.num(x) for x in p_]) for p_ in pts]), oclass, Lin.num(0), Lin.num(F(7, 4))], {})
+            I.call_value(I.getattr(obj, "save"), ["out.txt"], {})
+            back = I.call_function(rd, ["out.txt"], {})
         except PyRaise as e:
-            rep.refuted(rule, sv.short, what, "building the text raises %s" % e.name)
+            rep.refuted(rule, sv.short + " / " + rd.short, what, "save followed by open raises %s: the written text does not have the layout the reader consumes" % e.name)
             continue
         except Undecided as e:
-            rep.undecided(rule, sv.short, what, str(e))
+            rep.undecided(rule, sv.short + " / " + rd.short, what, str(e))
             continue
-        if not isinstance(text, str):
-            rep.undecided(rule, sv.short, what, "text is not concrete: %r" % (text,))
-            continue
-        chunks = text.split("\n", k)
         problems = []
-        if len(chunks) != k + 1:
-            problems.append("only %d line breaks before the data, the reader splits off %d: its chunk indices slide and float('') is raised" % (len(chunks) - 1, k))
+        if not isinstance(back, ObjVal):
+            problems.append("reader returned %r" % (back,))
         else:
-            try:
-                if float(chunks[idxs["minT"]]) != 0.0 or float(chunks[idxs["maxT"]]) != 1.75:
-                    problems.append("span lines hold %r / %r" % (chunks[idxs["minT"]], chunks[idxs["maxT"]]))
-            except ValueError:
-                problems.append("span lines are not numbers: %r / %r" % (chunks[idxs["minT"]], chunks[idxs["maxT"]]))
-            if "PitchTier" not in chunks[1]:
-                problems.append("second line does not carry the class: %r" % chunks[1])
-            vals = [v for v in chunks[-1].split("\n") if v.strip() != ""]
-            want = [repr(float(x)) for p_ in pts for x in p_]
-            if [float(v) for v in vals] != [float(x) for x in want]:
-                problems.append("data values %s, expected %s" % (vals, want))
-        rep.check(not problems, rule, sv.short + " / " + rd.short, what, ok="class, span, count and values sit on the lines the short reader takes them from", bad="; ".join(problems))
-    rep.floor(rule, 2)
+            if I.getattr(back, "objectClass") != oclass:
+                problems.append("class %r" % (I.getattr(back, "objectClass"),))
+            lo, hi = I.getattr(back, "minTime"), I.getattr(back, "maxTime")
+            if not (isinstance(lo, Lin) and lo.const == 0 and isinstance(hi, Lin) and hi.const == F(7, 4)):
+                problems.append("span (%r, %r), expected (0, 1.75)" % (lo, hi))
+            got = [[x.const if isinstance(x, Lin) else x for x in I.iterate(row)] for row in I.iterate(I.getattr(back, "pointList"))]
+            if got != [list(p_) for p_ in pts]:
+                problems.append("points %s, expected %s" % (got, [list(p_) for p_ in pts]))
+        rep.check(not problems, rule, sv.short + " / " + rd.short, what, ok="class, span and every point come back", bad="; ".join(problems))
+    rep.floor(rule, 4)
 
 
 def run(rep, tier):
@@ -309,7 +288,7 @@ def run(rep, tier):
     rep.rule("N-clean", "_cleanNumericValues and toIntOrFloat, interpreted on exemplar rows, keep the denoted number (also for tiny, huge, zero and integer values)")
     rep.rule("M-modify", "modifySubtiers / modifyValues interpreted on a generic container: function applied exactly once per value of the addressed tiers, times and other tiers untouched")
     rep.rule("B2-save-order", "Klattgrid.save and PointObject.save compute the whole text before opening the destination")
-    rep.rule("P-layout", "point-object writer layout equals what the short reader consumes, including zero points")
+    rep.rule("P-layout", "PointObject.save then open1D/2DPointObject interpreted on exemplar objects (0-3 points, dyadic values) with a virtual file: class, span and points come back")
     rep.not_decided.append("digit-for-digit identity as a behaviour of the whole reader (it needs the section scanner to be right about where fields are, for every file)")
     rep.not_decided.append("long/short equality of point objects beyond the field-bound rules")
     rule_sentinels(rep)
@@ -317,4 +296,4 @@ def run(rep, tier):
     rule_clean_numeric(rep, tier)
     rule_modify(rep)
     rule_save_order(rep, ["Klattgrid.save", "PointObject.save"])
-    rule_point_object_layout(rep)
+    rule_point_object_layout(rep, tier)
